@@ -41,6 +41,18 @@ CLI_WALL_LIMIT = 150.0
 CORPUS = VERIF / "corpus" / PROP
 
 
+def msg_slug(msg) -> str:
+    """first words of an exception message with numbers and quoted text removed: part of a failure's key, so that a rule raising
+    the same exception class for a different reason is a different (unlisted) key"""
+    m = re.sub(r"'[^']*'|\"[^\"]*\"", "", str(msg or ""))
+    words = re.findall(r"[A-Za-z_]+", m.lower())[:3]
+    return "-".join(words) or "no-message"
+
+
+def fail_key(rule, exc_type, msg, cls) -> str:
+    return f"fail:{rule}:{exc_type}:{msg_slug(msg)}:{cls}"
+
+
 def cpu_limit(nbytes: int) -> float:
     """the 'hang' oracle of the in-process runs: CPU seconds allowed for one run with an offending file of this size
     (a healthy 2 KB file costs about 0.01 s per rule set; the limit is far above linear extrapolation)"""
@@ -133,8 +145,9 @@ def literal_and_comment_sweeps(seed: int, thin: bool):
     """deterministic: every numeric spelling in every language; every directive / header / doc-comment form x every payload shape"""
     out = []
     for lang in c11_mut.LANGS:
-        off = {"cls": "numeric-literal", "kind": "sweep:all-spellings", "lang": lang, "name": "case" + c11_pool.EXT[lang], "data": c11_mut.numeric_sweep(lang)}
-        out.append(_mk_case(f"numsweep:{lang}", off, "default", "files", 2))
+        for j, data in enumerate(c11_mut.numeric_sweep(lang)):
+            off = {"cls": "numeric-literal", "kind": f"sweep:spellings#{j}", "lang": lang, "name": "case" + c11_pool.EXT[lang], "data": data}
+            out.append(_mk_case(f"numsweep:{lang}:{j}", off, "default", "files", 2 + j))
         forms = c11_mut.forms_for(lang)
         for k, form in enumerate(forms):
             if thin and lang == "js" and k % 2:
@@ -200,13 +213,13 @@ def judge_stream(chk: Check, case, res, healthy_rules):
             # explained by the containment model: ValueError is re-raised by _safe_check_rule (flag) ...
             known_or_violation(FLAG, "an exception of the ValueError family raised by a rule aborted the whole run", {"crash": crash})
             # ... and the rule raising on this content is a finding of its own
-            known_or_violation(f"fail:{crash['rule']}:{crash['exc_type']}:{cls}", "a rule raised on file content", {"crash": crash})
+            known_or_violation(fail_key(crash["rule"], crash["exc_type"], crash.get("exc_msg"), cls), "a rule raised on file content", {"crash": crash})
         else:
             problems += 1
             chk.violation({"reason": "an exception escaped Orchestrator.lint_files / lint_directory and is not explained by the containment model",
                            "crash": crash, **info})
     for f in res.get("failures", []):
-        known_or_violation(f"fail:{f.get('rule')}:{f.get('exc_type')}:{cls}",
+        known_or_violation(fail_key(f.get("rule"), f.get("exc_type"), f.get("exc_msg"), cls),
                            "a rule failed internally and its analysis of the file was dropped (swallowed exception, hook H1)", {"failure": f})
     if res.get("siblings_equal") is False:
         problems += 1
@@ -261,10 +274,19 @@ def _viols(stdout, offender_name=None):
 
 
 def cli_part(chk: Check, seed: int, stream_cases, n_cli: int, sd: Path):
-    pool = [c for c in stream_cases if len(c["data"]) <= 25000 and not (c["meta"]["cls"] == "length-blowup" and "many-lines" in c["meta"]["kind"])]
+    def fits(c):
+        m = c["meta"]
+        if m["cls"] == "length-blowup" and "many-lines" in m["kind"]:
+            return False
+        return len(c["data"]) <= (120000 if m["cls"] in ("comment-payload", "numeric-literal") else 25000)
+
+    pool = [c for c in stream_cases if fits(c)]
     fixed = [c for c in pool if c["id"].startswith("corpus:")]
-    rnd = [c for c in pool if re.fullmatch(r"s\d+", c["id"])]
-    chosen = fixed[:12] + rnd[: max(0, n_cli - len(fixed[:12]))]
+    rest = [c for c in pool if re.match(r"s\d+$|grid|cmtsweep|numsweep", c["id"])]
+    rng_for(seed, PROP, "cli-sample").shuffle(rest)
+    # token-level / literal / comment classes first: they are the ones whose effect depends on the command's own analyzers
+    rest.sort(key=lambda c: 0 if c["meta"]["cls"] in c11_mut.TOKEN_CLASSES else 1)
+    chosen = fixed[:10] + rest[: max(0, n_cli - len(fixed[:10]))]
     sibs = c11_pool.siblings()
     extra = [(f"extra{k}{c11_pool.EXT[l]}", c11_pool.pool_file(l, 30 + k)) for k, l in enumerate(["py", "ts", "js", "rs", "py", "ts", "py", "rs", "js"])]
     (sd / "home").mkdir(exist_ok=True)
@@ -343,7 +365,7 @@ def cli_part(chk: Check, seed: int, stream_cases, n_cli: int, sd: Path):
                    {"failure": f})
                 continue
             rule = f.get("rule") if f.get("rule") not in (None, "None") else f.get("where")
-            kv(f"fail:{rule}:{f.get('exc_type')}:{cls}", "a rule failed internally during a CLI run (hook H1)", {"failure": f})
+            kv(fail_key(rule, f.get("exc_type"), f.get("exc_msg"), cls), "a rule failed internally during a CLI run (hook H1)", {"failure": f})
         got = _viols(o["stdout"], c["name"])
         want = _viols(bases[key]["stdout"]) if key in bases else None
         if got is None:
